@@ -7,14 +7,6 @@ import Cctp.Lemmas.Result
 namespace Cctp
 open Gen
 
-@[simp] theorem reqAll_ok {α} (o : Option α) (p : α → Prop) [DecidablePred p] (u : Unit) :
-    reqAll o p = .ok u ↔ ∀ a, o = some a → p a := by
-  unfold reqAll; cases o <;> simp
-
-@[simp] theorem reqAll_ne_panic {α} (o : Option α) (p : α → Prop) [DecidablePred p] :
-    reqAll o p ≠ .error .panic := by
-  unfold reqAll; cases o <;> simp
-
 theorem checkCaller_ok (ext : Ext) (caller from_ : Bytes) (u : Unit) :
     checkCaller ext caller from_ = .ok u ↔ (caller = zeros 32 ∨ ext.bech32Enc (caller.drop 12) = some from_) := by
   unfold checkCaller
